@@ -175,6 +175,10 @@ def check_C(S, p):
                 produced = w.out
         S.count("C_matrix_runs")
         S.observe("writer_format_transport", "%s/%s/%s" % (writer, fmt, transport))
+        if writer != "create" and w.rc == 0 and i % 2 == 0:
+            # -o FILE once more through the shared path-state monitor: neighbouring files untouched, two invocations at once
+            from ..engines import outpath
+            outpath.check_file_equals_pipe(S, "C07:file-vs-pipe", "C %s" % writer, rng, args, src)
         if writer != "create" and transport == "pipe" and w.rc == 0:
             # the same conversion as typed at a shell prompt: input named by path, stdin an idle terminal, stdout redirected
             wt = cli.sfs(args + [E.tmpfile(src, rng.choice([".in", ".npy", ".sfs", ".txt", ""]))], stdin_tty=True)
